@@ -89,8 +89,9 @@ def validator_rules(prog, res):
     R = "T3.validator"
     f = prog.fn("ZSTD_validateSequence")
     sites = guards.guard_sites(f)
-    off = [g for g in sites if "externalSequences_invalid" in g.codes and g.op == ">" and "p:0" in g.L | g.R]
-    ml = [g for g in sites if "externalSequences_invalid" in g.codes and g.op == "<" and "p:1" in g.L | g.R]
+    # orientation-free: offset (param 0) above a bound fails; match length (param 1) below a bound fails
+    off = [g for g in sites if "externalSequences_invalid" in g.codes and ((g.op == ">" and "p:0" in g.L) or (g.op == "<" and "p:0" in g.R))]
+    ml = [g for g in sites if "externalSequences_invalid" in g.codes and ((g.op == "<" and "p:1" in g.L) or (g.op == ">" and "p:1" in g.R))]
     succ = reset.success_returns(f)
     res.check(bool(off) and f.must_pass(via_edges={(g.bid, g.ok) for g in off}, targets=succ), R, "offset-bound", f.loc, "offBase > OFFSET_TO_OFFBASE(bound) is refused", "offset test missing")
     res.check(bool(ml) and f.must_pass(via_edges={(g.bid, g.ok) for g in ml}, targets=succ), R, "match-length-bound", f.loc, "matchLength below the minimum is refused", "match length test missing")
